@@ -39,6 +39,8 @@ type Variant struct {
 	Store     string            `json:"store,omitempty"`
 	DetOrder  bool              `json:"detOrder,omitempty"`
 	FactsMove bool              `json:"factsMove,omitempty"` // text facts are pre-loaded and vice versa
+	// FactsAfter: that many of the (permuted) facts of the text are written after the rules.
+	FactsAfter int `json:"factsAfter,omitempty"`
 }
 
 // Case: a (plain) program or a temporal program, and the variants to compare.
@@ -203,6 +205,7 @@ func apply(g prog.Generated, v Variant) (prog.Program, []prog.Atom, map[string]s
 		extra[i] = rename(extra[i])
 	}
 	p.Facts = facts
+	p.FactsAfter = v.FactsAfter
 	for _, s := range g.Prog.Preds() {
 		presented := s.Symbol
 		if n, ok := v.PredMap[s.Symbol]; ok {
@@ -301,11 +304,12 @@ func runPlain(g prog.Generated, v Variant) result {
 	if kind == "" {
 		kind = "multiindexedarray"
 	}
-	store := prog.NewStore(kind)
 	ex := prog.Eval(prog.Program{Facts: extra}, nil, prog.Options{})
+	var atoms []ast.Atom
 	for _, k := range ex.Model.Keys() {
-		store.Add(ex.Model[k].ToAtom())
+		atoms = append(atoms, ex.Model[k].ToAtom())
 	}
+	store := prog.NewLoadedStore(kind, atoms)
 	var opts []engine.EvalOption
 	if v.DetOrder {
 		opts = append(opts, engine.WithDeterministicOrder())
@@ -624,7 +628,9 @@ func genPredMap(t *rapid.T, names []string, flip bool) map[string]string {
 func genVariants(t *rapid.T, preds []string, nRules, nFacts, nDecls int) []Variant {
 	vs := []Variant{
 		{Name: "rerun"},
-		{Name: "shuffle", RulePerm: genPerm(t, nRules, "rulePerm"), FactPerm: genPerm(t, nFacts, "factPerm"), DeclPerm: genPerm(t, nDecls, "declPerm")},
+		{Name: "shuffle", RulePerm: genPerm(t, nRules, "rulePerm"), FactPerm: genPerm(t, nFacts, "factPerm"), DeclPerm: genPerm(t, nDecls, "declPerm"),
+			FactsAfter: rapid.IntRange(0, nFacts).Draw(t, "shuffleFactsAfter")},
+		{Name: "facts-last", FactsAfter: nFacts, RulePerm: genPerm(t, nRules, "rulePerm3")},
 		{Name: "alpha", Alpha: true},
 		{Name: "rename-flip", PredMap: genPredMap(t, preds, true)},
 		{Name: "rename-perm", PredMap: genPredMap(t, preds, false)},
